@@ -1,1 +1,3 @@
 //! Executable reference models written from the property statements.
+pub mod layout;
+pub mod mock;
